@@ -54,8 +54,20 @@ def encodeChunk (magic version : Nat) (es : List (Event Nat Nat)) : Bytes :=
 def encodedSize (es : List (Event Nat Nat)) : Nat :=
   12 + (es.map (fun e => 8 + 4 * (e.cues.length + e.outcomes.length))).sum
 
+/-- what a reader reports.  `badMagic` / `badVersion`: the header checks of the
+    real readers (`ValueError` in `read_binary_file`, error codes 1 / 2 → `IOError`
+    in the compiled entry points).  `noFile`: the two binary-to-binary entry points start
+    with `error = INITIAL_ERROR_CODE` (3) and raise `IOError` when the list of
+    chunk files is EMPTY (no file ever resets the code; `learnChunksB2B`).
+    `truncated` is NOT an error of the real readers: it marks byte strings that
+    end before the counts they announce are used up, which are OUTSIDE the model
+    (`read_binary_file` zero-fills a short `read(4)` — an 8-byte header-only file
+    reads back as `[]` —, the kernels ignore the return value of `fread` and go on
+    with stale values).  No theorem claims anything about the real readers on
+    such byte strings; chunk files written by `write_events` are never of that
+    kind (`decodeChunkPy_encodeChunk`). -/
 inductive ReadErr where
-  | badMagic | badVersion | truncated
+  | badMagic | badVersion | truncated | noFile
 deriving Repr, BEq, DecidableEq
 
 def decodeEvents : Nat → Bytes → Option (List (Event Nat Nat) × Bytes)
@@ -149,6 +161,8 @@ inductive WriteResult where
   | stopped (n : Nat)     -- raised StopIteration((msg, n)), header rewritten
   | empty                 -- wrote no event, file removed, returned 0
   | dupError (idx : Nat)  -- raised ValueError at event idx (file left behind)
+  | overflow              -- raised OverflowError: `to_bytes(stop - start)` (preprocess.py:681),
+                          -- before any event is looked at (8 header bytes left behind)
 deriving Repr, BEq, DecidableEq
 
 /-- events of the window `[start, stop)` of the enumerated stream, after the
@@ -167,9 +181,14 @@ def windowEvents (p : DupPolicy) (es : List (Event Nat Nat)) (start stop : Nat) 
         | .ok r => .ok (e' :: r)
   go start win
 
-/-- the file content (if a file is left on disk) and the result kind -/
+/-- the file content (if a file is left on disk) and the result kind.
+    The estimate `stop - start` is written into the header FIRST
+    (`out_file.write(to_bytes(n_events_estimate))`, preprocess.py:680-681):
+    `int.to_bytes(4, 'little')` raises `OverflowError` for a negative value
+    (`stop < start`) and for `stop - start ≥ 2³²` — whatever the events are. -/
 def writeEvents (magic version : Nat) (p : DupPolicy) (es : List (Event Nat Nat))
     (start stop : Nat) : Option Bytes × WriteResult :=
+  if stop < start ∨ 4294967296 ≤ stop - start then (none, .overflow) else
   match windowEvents p es start stop with
   | .error idx =>
     -- the partially written file stays; its content is not observed by any reader
@@ -188,7 +207,10 @@ namespace Pyndl
     (`ndl_parallel.learn_inplace_binary_to_binary`, `ndl_openmp.learn_inplace_*`):
     a file whose header is rejected stops the loop and the error is raised
     (`if error != NO_ERROR: break` … `raise IOError`); `learnFile` is the event
-    loop of the respective kernel (all parts of that file). -/
+    loop of the respective kernel (all parts of that file).  On an EMPTY file
+    list the loop does nothing; the three Widrow-Hoff entry points of
+    ndl_openmp.pyx then return normally (confirmed on the real code), the two
+    binary-to-binary entry points do not: `learnChunksB2B`. -/
 def learnChunks {σ : Type} (magic version : Nat) (learnFile : σ → List (Event Nat Nat) → σ) :
     List Bytes → σ → σ × Option ReadErr
   | [], w => (w, none)
@@ -196,5 +218,18 @@ def learnChunks {σ : Type} (magic version : Nat) (learnFile : σ → List (Even
     match decodeChunkKernel magic version f with
     | .error e => (w, some e)
     | .ok (es, _) => learnChunks magic version learnFile fs (learnFile w es)
+
+/-- the two binary-to-binary entry points as they are CALLED
+    (`ndl_parallel.learn_inplace_binary_to_binary`, ndl_parallel.pyx:57-87;
+    `ndl_openmp.learn_inplace_binary_to_binary`, ndl_openmp.pyx:24-67):
+    `cdef ErrorCode error = INITIAL_ERROR_CODE` is only overwritten inside the
+    loop over the files, so an EMPTY file list ends in `raise IOError` (error
+    code 3) with the weights untouched; otherwise the loop.  This is why
+    `ndl.ndl` raises `IOError` on an event file with zero events (`ndlCall`). -/
+def learnChunksB2B {σ : Type} (magic version : Nat) (learnFile : σ → List (Event Nat Nat) → σ)
+    (files : List Bytes) (w : σ) : σ × Option ReadErr :=
+  match files with
+  | [] => (w, some .noFile)
+  | _ :: _ => learnChunks magic version learnFile files w
 
 end Pyndl
